@@ -1151,6 +1151,12 @@ class Converter:
                 # We need to insert a copy. (The returned expression may be another variable
                 # bound to the input, while the input's own name has been re-assigned.)
                 return_var = self._emit_copy(return_var, preferred_name)
+            else:
+                producer = return_var.producer()
+                if producer is not None and producer.graph is not self._current_fn.graph:
+                    # A nested function returns a value computed by the enclosing function:
+                    # the output of a subgraph must be produced inside the subgraph.
+                    return_var = self._emit_copy(return_var, preferred_name)
             for prev_output in self._current_fn.outputs:
                 if prev_output.name == return_var.name:
                     # ONNX does not allow duplicate output names.
